@@ -1,1 +1,341 @@
-/- property theorems for C12 (filled in below) -/
+/-
+C12 — results are independent of number packaging and of homogeneous rescaling.
+Only property theorems and non-vacuity examples; helper lemmas are in `GT.Lemmas.Rescale`.
+Models: `GT.Model.Dtype` (finite decision model of the dtype inference),
+`GT.Model.Rescale` / `GT.Model.Charts` (field-generic formulas).
+-/
+import GT.Model.Dtype
+import GT.Lemmas.Rescale
+import GT.Properties.C01
+
+open Finset BigOperators
+
+set_option linter.unusedSectionVars false
+set_option linter.unusedVariables false
+
+namespace GT.C12
+open GT GT.Dtype GT.Rescale
+
+/-! ## packaging: the dtype decision table -/
+
+/-- the repaired library never hands a caller's value to `np.can_cast`, so the NumPy major
+version cannot influence any dtype decision -/
+theorem repaired_major_independent (major : Nat) (e : Entry) (p : Pack) :
+    entryDtype (Lib.repaired major) e p = entryDtype (Lib.repaired 2) e p := by
+  cases e <;> cases p <;> rfl
+
+/-- **real numeric input yields floating-point data**: every NumPy major version, every
+real packaging (Python int/float, NumPy scalar, 0-d/1-d/2-d array, list, nested list),
+every listed entry point that computes with the numbers.  The quantifier *is* the table. -/
+theorem real_input_floating (major : Nat) (e : Entry) (p : Pack) (he : e.floating = true)
+    (hp : p.isRealNumeric = true) :
+    isOkWith Dt.isFloating (entryDtype (Lib.repaired major) e p) = true := by
+  rw [repaired_major_independent]
+  have h : ∀ e ∈ Entry.all, ∀ p ∈ Pack.all, e.floating = true → p.isRealNumeric = true →
+      isOkWith Dt.isFloating (entryDtype (Lib.repaired 2) e p) = true := by decide +kernel
+  exact h e (Entry.mem_all e) p (Pack.mem_all p) he hp
+
+/-- the factories with `integer_type=True` and the constructors that store the caller's
+numbers (`zeros`, `identity`, `Point(...)`, `Transformation(...)`) never produce generic
+`object` data from real input, and produce floating-point data unless the packaging itself
+carries an integer dtype (where the integer dtype is the documented, tested behaviour:
+`testing/test_hyperbolic.py::test_get_origin`) -/
+theorem real_input_never_object (major : Nat) (e : Entry) (p : Pack)
+    (hp : p.isRealNumeric = true) :
+    isOkWith Dt.isRealNumeric (entryDtype (Lib.repaired major) e p) = true ∧
+    (p.isInteger = false → isOkWith Dt.isFloating (entryDtype (Lib.repaired major) e p) = true) := by
+  rw [repaired_major_independent]
+  have h : ∀ e ∈ Entry.all, ∀ p ∈ Pack.all, p.isRealNumeric = true →
+      (isOkWith Dt.isRealNumeric (entryDtype (Lib.repaired 2) e p) = true ∧
+       (p.isInteger = false → isOkWith Dt.isFloating (entryDtype (Lib.repaired 2) e p) = true)) := by
+    decide +kernel
+  exact h e (Entry.mem_all e) p (Pack.mem_all p) hp
+
+/-- the dtype an entry point produces depends on the packaging only through the dtype NumPy
+assigns to it (and, for bare Python objects, on their having no `.dtype`): two packagings
+with the same probe get the same dtype -/
+theorem dtype_depends_only_on_probe (major : Nat) (e : Entry) (p q : Pack)
+    (h1 : p.dtypeAttr.isSome = q.dtypeAttr.isSome) (h2 : p.asarrayDtype = q.asarrayDtype)
+    (hp : p.isRealNumeric = true) (hq : q.isRealNumeric = true) :
+    entryDtype (Lib.repaired major) e p = entryDtype (Lib.repaired major) e q := by
+  rw [repaired_major_independent major e p, repaired_major_independent major e q]
+  have h : ∀ e ∈ Entry.all, ∀ p ∈ Pack.all, ∀ q ∈ Pack.all,
+      p.dtypeAttr.isSome = q.dtypeAttr.isSome → p.asarrayDtype = q.asarrayDtype →
+      p.isRealNumeric = true → q.isRealNumeric = true →
+      entryDtype (Lib.repaired 2) e p = entryDtype (Lib.repaired 2) e q := by decide +kernel
+  exact h e (Entry.mem_all e) p (Pack.mem_all p) q (Pack.mem_all q) h1 h2 hp hq
+
+/-- defect D2, documented: with the ORIGINAL `utils/types.py` under NumPy ≥ 2 a Python float
+is classified "not a linalg type" (`np.can_cast(0.3, …)` raises `TypeError`), so
+`rotation_matrix(0.3)`, `standard_rotation(0.3)`, … are `object` arrays -/
+theorem pinned_float_not_linalg :
+    isLinalgTypePinned 2 .pyFloat = false ∧ isLinalgTypePinned 1 .pyFloat = true ∧
+    entryDtype (Lib.pinned 2) .rotationMatrix .pyFloat = .ok .object ∧
+    entryDtype (Lib.pinned 2) .standardRotation .pyFloat = .ok .object ∧
+    entryDtype (Lib.pinned 2) .sl2Iso (.list .d2 .float) = .ok .object ∧
+    entryDtype (Lib.pinned 2) .regularPolygon .pyFloat = .ok .object ∧
+    entryDtype (Lib.pinned 2) .coxeterRep (.arr .r2 .int64) = .ok .object := by decide +kernel
+
+/-- … hence the floating-point clause is FALSE of the pinned logic (witness: NumPy 2,
+`standard_rotation(0.3)`) -/
+theorem real_input_floating_pinned_false :
+    ¬ ∀ (major : Nat) (e : Entry) (p : Pack), e.floating = true → p.isRealNumeric = true →
+      isOkWith Dt.isFloating (entryDtype (Lib.pinned major) e p) = true := by
+  intro h
+  exact absurd (h 2 .standardRotation .pyFloat rfl rfl) (by decide +kernel)
+
+/-- the repair restores what the pinned logic did under NumPy 1 for scalars and arrays -/
+theorem repaired_eq_pinned_numpy1 (e : Entry) (p : Pack)
+    (hp : (match p with | .list _ _ => false | .other => false | _ => true) = true) :
+    entryDtype (Lib.repaired 1) e p = entryDtype (Lib.pinned 1) e p := by
+  have h : ∀ e ∈ Entry.all, ∀ p ∈ Pack.all,
+      (match p with | .list _ _ => false | .other => false | _ => true) = true →
+      entryDtype (Lib.repaired 1) e p = entryDtype (Lib.pinned 1) e p := by decide +kernel
+  exact h e (Entry.mem_all e) p (Pack.mem_all p) hp
+
+/-- defects D16 / D17, documented: with `integer_type` left at its default the allocation
+takes the integer dtype of the angle, and the cosines are truncated on assignment -/
+theorem integer_call_sites_pinned (major : Nat) :
+    fromAnglePinned (Lib.repaired major) .pyInt = .ok .int64 ∧
+    fromAnglePinned (Lib.repaired major) (.list .d1 .int) = .ok .int64 ∧
+    standardRotationPinned (Lib.repaired major) (.npScalar .int64) = .ok .int64 ∧
+    standardRotationPinned (Lib.repaired major) (.arr .r0 .int64) = .ok .int64 := by
+  refine ⟨rfl, rfl, rfl, rfl⟩
+
+/-! ## rescaling of homogeneous coordinates -/
+
+section generic
+variable {K : Type*} [Field K] [LinearOrder K] [IsStrictOrderedRing K] {n : ℕ} {r : K → K}
+
+/-- affine (Klein) coordinates do not see the representative; any chart -/
+theorem affineCoords_smul (k : Fin (n + 1)) (x : Fin (n + 1) → K) (c : K) (hc : c ≠ 0) :
+    affineChart k (fun i => x i * c) = affineChart k x ∧ klein (fun i => x i * c) = klein x :=
+  ⟨affineChart_smul' k x c hc, klein_smul x c hc⟩
+
+/-- `cosh d` is unchanged by independent rescaling of both points, negative factors too -/
+theorem coshDist_smul (hr : IsSqrt r) (x y : Fin (n + 1) → K) (a b : K) (ha : a ≠ 0) (hb : b ≠ 0)
+    (hx : mink x x ≠ 0) (hy : mink y y ≠ 0) :
+    coshDist r (fun i => x i * a) (fun i => y i * b) = coshDist r x y :=
+  coshDist_smul_generic hr x y a b ha hb hx hy
+
+/-- the two ideal endpoints of a segment, as an *unordered* pair of projective points, do not
+depend on the representatives of the endpoints.  Hypotheses: the points are distinct points of
+the closed ball (`0 < disc`) and neither pair of representatives has a lightlike difference
+(`a ≠ 0`: the code divides by `2a`) -/
+theorem segmentIdeal_smul (hr : IsSqrt r) (x₁ x₂ : Fin (n + 1) → K) (l₁ l₂ : K)
+    (h1 : l₁ ≠ 0) (h2 : l₂ ≠ 0) (ha : segA x₁ x₂ ≠ 0)
+    (ha' : segA (fun i => x₁ i * l₁) (fun i => x₂ i * l₂) ≠ 0) (hd : 0 < segDisc x₁ x₂) :
+    ∃ c d : K, c ≠ 0 ∧ d ≠ 0 ∧
+      ((segNull r 1 (fun i => x₁ i * l₁) (fun i => x₂ i * l₂) = (fun i => segNull r 1 x₁ x₂ i * c) ∧
+        segNull r (-1) (fun i => x₁ i * l₁) (fun i => x₂ i * l₂) = (fun i => segNull r (-1) x₁ x₂ i * d)) ∨
+       (segNull r 1 (fun i => x₁ i * l₁) (fun i => x₂ i * l₂) = (fun i => segNull r (-1) x₁ x₂ i * c) ∧
+        segNull r (-1) (fun i => x₁ i * l₁) (fun i => x₂ i * l₂) = (fun i => segNull r 1 x₁ x₂ i * d))) := by
+  obtain ⟨t₁, E₁, ht₁, hE₁, hE₁def, hμ₁, hN₁⟩ :=
+    segNull_smul_aux hr x₁ x₂ l₁ l₂ h1 h2 ha ha' hd 1 (by ring)
+  obtain ⟨t₂, E₂, ht₂, hE₂, hE₂def, hμ₂, hN₂⟩ :=
+    segNull_smul_aux hr x₁ x₂ l₁ l₂ h1 h2 ha ha' hd (-1) (by ring)
+  have hne : t₁ ≠ t₂ := by
+    intro h
+    rw [h] at hμ₁
+    rw [hE₁def] at hμ₁ hE₁
+    rw [hE₂def] at hμ₂ hE₂
+    have hpq := param_inj h1 h2 hE₁ hE₂ (hμ₁.trans hμ₂.symm)
+    -- the two roots of the rescaled quadratic differ because its discriminant is positive
+    have hd' : 0 < segDisc (fun i => x₁ i * l₁) (fun i => x₂ i * l₂) := by
+      rw [segDisc_smul]
+      exact mul_pos (lt_of_le_of_ne (sq_nonneg _) (pow_ne_zero 2 (mul_ne_zero h1 h2)).symm) hd
+    have hρ := hr.pos hd'
+    unfold segMu at hpq
+    have h2a : (2 : K) * segA (fun i => x₁ i * l₁) (fun i => x₂ i * l₂) ≠ 0 :=
+      mul_ne_zero two_ne_zero ha'
+    rw [div_left_inj' h2a] at hpq
+    linarith
+  rcases ht₁ with rfl | rfl <;> rcases ht₂ with rfl | rfl
+  · exact absurd rfl hne
+  · exact ⟨E₁, E₂, hE₁, hE₂, Or.inl ⟨hN₁, hN₂⟩⟩
+  · exact ⟨E₁, E₂, hE₁, hE₂, Or.inr ⟨hN₁, hN₂⟩⟩
+  · exact absurd rfl hne
+
+/-- centre and radius of the Poincaré circle carrying a geodesic are functions of the
+*projective* ideal endpoints, symmetric in the two (so the unordered pair above suffices) -/
+theorem circleParams_smul (N₁ N₂ : Fin (n + 1) → K) (c d : K) (hc : c ≠ 0) (hd : d ≠ 0) :
+    circleCentre r (fun i => N₁ i * c) (fun i => N₂ i * d) = circleCentre r N₁ N₂ ∧
+    circleRadius r (fun i => N₁ i * c) (fun i => N₂ i * d) = circleRadius r N₁ N₂ ∧
+    circleCentre r N₂ N₁ = circleCentre r N₁ N₂ ∧ circleRadius r N₂ N₁ = circleRadius r N₁ N₂ := by
+  have hm : poincareMid r (fun i => N₁ i * c) (fun i => N₂ i * d) = poincareMid r N₁ N₂ := by
+    unfold poincareMid; rw [klein_smul N₁ c hc, klein_smul N₂ d hd]
+  have hs : poincareMid r N₂ N₁ = poincareMid r N₁ N₂ := by
+    unfold poincareMid; congr 1; funext i; ring
+  refine ⟨?_, ?_, ?_, ?_⟩
+  · unfold circleCentre; rw [hm]
+  · unfold circleRadius; rw [hm]
+  · unfold circleCentre; rw [hs]
+  · unfold circleRadius; rw [hs]
+
+/-- the reflection in a non-null vector does not depend on its scale -/
+theorem reflect_smul (v x : Fin (n + 1) → K) (c : K) (hc : c ≠ 0) :
+    reflectIn (fun i => v i * c) x = reflectIn v x := by
+  funext i; unfold reflectIn
+  rw [mink_smul_left, mink_smul_right, mink_smul_right]
+  by_cases h : mink v v = 0
+  · simp [h]
+  · field_simp
+
+/-- `Subspace.reflection_across`: rescaling the rows of the matrix `D` (dual vector and ideal
+basis, each by its own non-zero factor) leaves `D⁻¹ · diag(-1,1,…,1) · D` unchanged -/
+theorem reflectionAcross_smul (D : Matrix (Fin (n + 1)) (Fin (n + 1)) K) (l : Fin (n + 1) → K)
+    (hl : ∀ i, l i ≠ 0) :
+    reflectionAcross (Matrix.diagonal l * D) = reflectionAcross D := by
+  unfold reflectionAcross
+  have hLinv : (Matrix.diagonal l)⁻¹ = Matrix.diagonal (fun i => (l i)⁻¹) := by
+    apply Matrix.inv_eq_right_inv
+    rw [Matrix.diagonal_mul_diagonal]
+    have : (fun i => l i * (l i)⁻¹) = fun _ => (1 : K) := by
+      funext i; exact mul_inv_cancel₀ (hl i)
+    rw [this, Matrix.diagonal_one]
+  rw [Matrix.mul_inv_rev, hLinv]
+  have hcomm : Matrix.diagonal (fun i => (l i)⁻¹)
+      * Matrix.diagonal (fun i => if i = 0 then (-1 : K) else 1)
+      * Matrix.diagonal l = Matrix.diagonal (fun i => if i = 0 then (-1 : K) else 1) := by
+    rw [Matrix.diagonal_mul_diagonal, Matrix.diagonal_mul_diagonal]
+    congr 1; funext i
+    have := hl i
+    field_simp
+  calc D⁻¹ * Matrix.diagonal (fun i => (l i)⁻¹)
+        * Matrix.diagonal (fun i => if i = 0 then (-1 : K) else 1) * (Matrix.diagonal l * D)
+      = D⁻¹ * (Matrix.diagonal (fun i => (l i)⁻¹)
+        * Matrix.diagonal (fun i => if i = 0 then (-1 : K) else 1) * Matrix.diagonal l) * D := by
+        simp only [Matrix.mul_assoc]
+    _ = _ := by rw [hcomm]
+
+/-- row 0 of `origin_to()` is the normalised representative: rescaling multiplies it by the
+sign of the factor, so it is the same projective point (and `origin_to` the same projective
+map on the origin) -/
+theorem originTo_row0_smul (hr : IsSqrt r) (x : Fin (n + 1) → K) (c : K) (hc : c ≠ 0)
+    (hx : mink x x ≠ 0) :
+    normalize r (fun i => x i * c) = (fun i => normalize r x i * (c / |c|)) ∧
+    klein (normalize r (fun i => x i * c)) = klein (normalize r x) := by
+  have h := normalize_smul hr x c hc hx
+  refine ⟨h, ?_⟩
+  rw [h]; exact klein_smul _ _ (div_ne_zero hc (abs_ne_zero.2 hc))
+
+/-- images under transformations: rescaling the point and the matrix rescales the image -/
+theorem apply_smul (M : Matrix (Fin (n + 1)) (Fin (n + 1)) K) (x : Fin (n + 1) → K) (c d : K)
+    (hc : c ≠ 0) (hd : d ≠ 0) :
+    applyT (d • M) (fun i => x i * c) = (fun i => applyT M x i * (c * d)) ∧
+    klein (applyT (d • M) (fun i => x i * c)) = klein (applyT M x) := by
+  have h : applyT (d • M) (fun i => x i * c) = fun i => applyT M x i * (c * d) := by
+    funext i; unfold applyT Matrix.vecMul dotProduct
+    simp only [Matrix.smul_apply, smul_eq_mul]
+    rw [Finset.sum_mul]; exact Finset.sum_congr rfl fun j _ => by ring
+  exact ⟨h, by rw [h]; exact klein_smul _ _ (mul_ne_zero hc hd)⟩
+
+/-- **repaired** `unit_tangent_towards`: rescaling `other` by any non-zero factor changes
+nothing; rescaling `self` by `a` multiplies the unit tangent vector by `sign a` — together with
+the base point, which is the same tangent vector of hyperbolic space (`(x, v) ~ (-x, -v)`) -/
+theorem unitTangentTowards_smul (hr : IsSqrt r) (x y : Fin (n + 1) → K) (a b : K) (ha : a ≠ 0)
+    (hb : b ≠ 0) (hx : mink x x ≠ 0) (hxy : mink x y ≠ 0)
+    (hv : mink (tangentTowards x y) (tangentTowards x y) ≠ 0) :
+    unitTangentTowards r (fun i => x i * a) (fun i => y i * b)
+      = fun i => unitTangentTowards r x y i * (a / |a|) := by
+  unfold unitTangentTowards
+  rw [tangentTowards_smul x y a b ha hb hx hxy]
+  have hc : |b| * (a / |a|) ≠ 0 :=
+    mul_ne_zero (abs_ne_zero.2 hb) (div_ne_zero ha (abs_ne_zero.2 ha))
+  rw [normalize_smul hr _ _ hc hv]
+  funext i
+  have : |b| * (a / |a|) / abs (|b| * (a / |a|)) = a / |a| := by
+    rw [abs_mul, abs_abs, abs_div_abs_self ha]
+    have := abs_ne_zero.2 hb
+    field_simp
+  rw [this]
+
+/-- … hence the point reached along the tangent direction is the same projective point -/
+theorem pointAlong_smul (hr : IsSqrt r) (x y : Fin (n + 1) → K) (a b t : K) (ha : a ≠ 0)
+    (hb : b ≠ 0) (hx : mink x x ≠ 0) (hxy : mink x y ≠ 0)
+    (hv : mink (tangentTowards x y) (tangentTowards x y) ≠ 0)
+    (hu : mink (unitTangentTowards r x y) (unitTangentTowards r x y) ≠ 0) :
+    klein (pointAlong r (fun i => x i * a)
+        (unitTangentTowards r (fun i => x i * a) (fun i => y i * b)) t)
+      = klein (pointAlong r x (unitTangentTowards r x y) t) := by
+  have hs : a / |a| ≠ 0 := div_ne_zero ha (abs_ne_zero.2 ha)
+  have e : pointAlong r (fun i => x i * a)
+      (unitTangentTowards r (fun i => x i * a) (fun i => y i * b)) t
+      = fun i => pointAlong r x (unitTangentTowards r x y) t i * (a / |a|) := by
+    unfold pointAlong
+    rw [unitTangentTowards_smul hr x y a b ha hb hx hxy hv, normalize_smul hr x a ha hx,
+      normalize_smul hr _ _ hs hu]
+    funext i
+    have : a / |a| / abs (a / |a|) = a / |a| := by rw [abs_div_abs_self ha, div_one]
+    rw [this]; ring
+  rw [e]; exact klein_smul _ _ hs
+
+/-- the **pinned** formula (`other.proj_data - self.proj_data`) follows the sign of `other`'s
+representative: the unit tangent is multiplied by `sign b` — it reverses for `b < 0` (D7) -/
+theorem unitTangentTowardsPinned_smul (hr : IsSqrt r) (x y : Fin (n + 1) → K) (b : K)
+    (hb : b ≠ 0) (hx : mink x x ≠ 0)
+    (hv : mink (tangentTowardsPinned x y) (tangentTowardsPinned x y) ≠ 0) :
+    unitTangentTowardsPinned r x (fun i => y i * b)
+      = fun i => unitTangentTowardsPinned r x y i * (b / |b|) := by
+  unfold unitTangentTowardsPinned
+  have e : tangentTowardsPinned x (fun i => y i * b) = fun i => tangentTowardsPinned x y i * b := by
+    rw [tangentTowardsPinned_eq _ _ hx, tangentTowardsPinned_eq _ _ hx]
+    have := projHyp_smul x y 1 b one_ne_zero hx
+    simpa using this
+  rw [e, normalize_smul hr _ b hb hv]
+
+end generic
+
+/-! ## over ℝ -/
+
+/-- distance is projectively well defined (C01, reused) -/
+theorem dist_smul {n : ℕ} (x y : Fin (n + 1) → ℝ) (a b : ℝ) (ha : a ≠ 0) (hb : b ≠ 0)
+    (hx : mink x x < 0) (hy : mink y y < 0) :
+    C01.hdist (fun i => x i * a) (fun i => y i * b) = C01.hdist x y :=
+  C01.hdist_smul x y a b ha hb hx hy
+
+/-- the rescaling clause is FALSE of the pinned `unit_tangent_towards`: at `x = (1,0,0)`,
+`y = (2,1,0)` the unit tangent towards `-y` is `(0,-1,0)`, towards `y` it is `(0,1,0)` -/
+theorem unitTangentTowardsPinned_not_invariant :
+    ∃ (x y : Fin 3 → ℝ) (b : ℝ), b ≠ 0 ∧ mink x x < 0 ∧ mink y y < 0 ∧
+      unitTangentTowardsPinned Real.sqrt x (fun i => y i * b)
+        ≠ unitTangentTowardsPinned Real.sqrt x y := by
+  refine ⟨![1, 0, 0], ![2, 1, 0], -1, by norm_num, ?_, ?_, ?_⟩
+  · simp [mink, dot, Fin.sum_univ_succ, Fin.tail]
+  · simp [mink, dot, Fin.sum_univ_succ, Fin.tail]; norm_num
+  · have hx : mink (![1, 0, 0] : Fin 3 → ℝ) ![1, 0, 0] ≠ 0 := by
+      simp [mink, dot, Fin.sum_univ_succ, Fin.tail]
+    have hP : tangentTowardsPinned (![1, 0, 0] : Fin 3 → ℝ) ![2, 1, 0] = ![0, 1, 0] := by
+      rw [tangentTowardsPinned_eq _ _ hx]
+      funext i; fin_cases i <;>
+        simp [projHyp, mproj, mink, dot, Fin.sum_univ_succ, Fin.tail]
+    have hv : mink (tangentTowardsPinned (![1, 0, 0] : Fin 3 → ℝ) ![2, 1, 0])
+        (tangentTowardsPinned (![1, 0, 0] : Fin 3 → ℝ) ![2, 1, 0]) ≠ 0 := by
+      rw [hP]; simp [mink, dot, Fin.sum_univ_succ, Fin.tail]
+    rw [unitTangentTowardsPinned_smul C01.isSqrt_real _ _ (-1) (by norm_num) hx hv]
+    intro h
+    have h1 := congrFun h 1
+    have hn : unitTangentTowardsPinned Real.sqrt (![1, 0, 0] : Fin 3 → ℝ) ![2, 1, 0] 1 = 1 := by
+      unfold unitTangentTowardsPinned normalize
+      rw [hP]
+      simp [mink, dot, Fin.sum_univ_succ, Fin.tail]
+    rw [hn] at h1
+    norm_num at h1
+
+/-! ## non-vacuity -/
+
+/-- a real packaging and a floating entry point -/
+example : Entry.standardRotation.floating = true ∧ (Pack.npScalar .int64).isRealNumeric = true :=
+  ⟨rfl, rfl⟩
+
+/-- two distinct interior points with `a ≠ 0`, `0 < disc`, rescaled by factors of opposite sign -/
+example : segA (![2, 1, 0] : Fin 3 → ℚ) ![3, 0, 1] ≠ 0 ∧ 0 < segDisc (![2, 1, 0] : Fin 3 → ℚ) ![3, 0, 1]
+    ∧ segA (fun i => (![2, 1, 0] : Fin 3 → ℚ) i * (-2)) (fun i => (![3, 0, 1] : Fin 3 → ℚ) i * 3) ≠ 0 := by
+  simp [segA, segDisc, segB, segC, mink, dot, Fin.sum_univ_succ, Fin.tail]; norm_num
+
+/-- hypotheses of `unitTangentTowards_smul`: timelike base point, non-orthogonal target,
+non-null tangent -/
+example : mink (![1, 0, 0] : Fin 3 → ℚ) ![1, 0, 0] ≠ 0 ∧ mink (![1, 0, 0] : Fin 3 → ℚ) ![2, 1, 0] ≠ 0 := by
+  simp [mink, dot, Fin.sum_univ_succ, Fin.tail]
+
+end GT.C12
